@@ -221,6 +221,8 @@ def union_dispatch_case(ctx, rng):  # noqa: C901
     if len(classes) < 3:
         return
     listed = rng.sample(classes, rng.randint(2, min(4, len(classes))))
+    if rng.random() < 0.3:
+        listed.insert(rng.randrange(len(listed) + 1), object)   # the last class of every mro is a legal union case too (seeded change: mro[:-1])
     hint = t.Union[tuple(listed)]
     recipe = [dumper(c, (lambda x, n=c.__name__: n)) for c in listed]
     dt = rng.choice(list(DebugTrail))
@@ -237,7 +239,7 @@ def union_dispatch_case(ctx, rng):  # noqa: C901
             if k in listed:
                 return k.__name__
         return None
-    order = [c() for c in classes] * 2
+    order = [c() for c in classes] * 2 + [5, "s"]
     rng.shuffle(order)
     desc = {"classes": {c.__name__: [b.__name__ for b in c.__bases__] for c in classes}, "listed": [c.__name__ for c in listed], "order": [type(o).__name__ for o in order], "mode": dt.name}
     for pos, obj in enumerate(order):
@@ -270,14 +272,22 @@ def _directed(node, datum, modes=MODES):
 
 def _confusable_literals(ctx):
     """All spellings of {0|False} x {1|True} side by side in ONE type (one retort builds all their loaders)."""
-    sets = [(0, 1), (False, True), (0, True), (False, 1), (1, 0), (True, False), ("x", 0, True), ("x", False, True)]
+    # the long ones: membership of more than a handful of members goes through a set, where 0 / False and 1 / True are ONE element
+    sets = [(0, 1), (False, True), (0, True), (False, 1), (1, 0), (True, False), ("x", 0, True), ("x", False, True),
+            (0, False, "a", "b", "c"), (True, 1, "a", "b", "c", "d"), (False, 0, 1, True, "a", "b", 2, 3)]
+    n = len(sets)
     for order in (sets, list(reversed(sets))):
         node = spec.TupleT([spec.LiteralT(m) for m in order])
         prog = Program(node)
         bag = []
-        for vals in ([0] * 8, [False] * 8, [1] * 8, [True] * 8, [0, False, 0, False, 1, True, 0, False], ["x"] * 8):
+        for vals in ([0] * n, [False] * n, [1] * n, [True] * n, ([0, False, 0, False, 1, True, 0, False] * 2)[:n], ["x"] * n):
             bag.append((repr(vals), (lambda vals=vals: list(vals)), False))
         check_program(ctx, None, node, prog, [tuple(m[0] for m in order), tuple(m[-1] for m in order)], bag)
+    # ... and every one alone against every look-alike: inside the tuple a rightly rejected neighbour masks a wrongly rejected item
+    single = [(lbl, (lambda v=v: v), False) for lbl, v in (("0", 0), ("False", False), ("1", 1), ("True", True), ("'x'", "x"), ("'a'", "a"), ("2", 2), ("0.0", 0.0), ("1.0", 1.0))]
+    for m in sets:
+        node = spec.LiteralT(m)
+        check_program(ctx, None, node, Program(node), list(m), single)
 
 
 def _containers_x_pool(ctx):
